@@ -52,10 +52,11 @@ private def boxedOp (name : String) (NL DL n d : Nat) : Option String :=
   let q0 := lenHex NL (n / d)
   let r0 := lenHex DL (n % d)
   if name = "checked_div" ∨ name = "checked_div_mixed" then
-    both (match boxedCheckedDiv a b with
+    -- with debug assertions `ct_select` asserts equal precision first: `<release> ## <dbgchk>`
+    both ((match boxedCheckedDiv a b with
           | some (some p) => limbsHexLen p
           | some none => "none"
-          | none => "panic") (if d = 0 then "none" else q0)
+          | none => "panic") ++ (if NL = DL then "" else " ## panic")) (if d = 0 then "none" else q0)
   else if d = 0 then both "none" "none"
   else match name with
   | "div_rem" | "div_rem_mixed" =>
